@@ -89,26 +89,32 @@ class C02(Prop):
     search_n = 600
     design_ref = "5/C02"
     technique = ("Lean 4 proof (invariants over all event sequences of the compiler's bookkeeping machines) + "
-                 "translator-generated constants + trace replay correspondence (hook H3) + sanitizer fuzzing "
+                 "translator-generated constants, located guards and measured store widths + trace replay correspondence (hook H3) + sanitizer fuzzing incl. byte-by-byte boundary sweeps "
                  "with a before/after probe program")
     level_text = ("PARTIAL.  Lean 4 theorems about an executable model of the LPC compiler's bookkeeping: locals tables "
                   "(sizes, cursors, add_local_name / pop_n_locals / reallocate_locals / function-literal enter+leave with "
                   "error-abandoned literals), mem_block doubling, include counter and stack, function-context stack, the "
                   "SAVEC bound on yytext, identifier sem_value references and bindings in every name space (local / function / global / class) with the "
-                  "dirty list of permanent identifiers; for ALL event sequences every table access "
+                  "dirty list of permanent identifiers; the lexer's text buffers (add_input in place / linked buffer, macro argument "
+                  "collector, macro body expansion, #define text, text block terminator, #include MACRO hops) and the code "
+                  "emitter's cursor (every ins_* width against the block end and the doubling); for ALL event sequences / character streams every table access "
                   "is inside its allocation and end-of-compile cleanup restores the initial configuration.  The model is "
                   "tied to the source by regenerated constants and by replaying the event stream emitted by the real "
-                  "compiler (hook H3) through the model: every (cursor, size) pair must be reproduced.  The Lean oracle "
+                  "compiler (hook H3) through the model: every (cursor, size) pair must be reproduced, incl. every add_input call; "
+                  "slack constants, guard presence and the reserved / written width of every ins_* are regenerated on every run.  The Lean oracle "
                   "judges every implementation trace; sources come from three fuzzers under ASan+UBSan with a per-case "
                   "timeout; a fixed probe program is compiled before and after each input and must dump identically, and an adaptive probe "
                   "(tiny programs mentioning every identifier the input declared, as rvalue / lvalue / functional / call / class "
                   "name) must have the same outcome as in a pristine sibling process that never saw the input.")
-    level_note = ("partial: the lexer's linked-buffer refill machine, macro expansion buffers, bison's stacks, the parse-tree "
-                  "and code generator (icode/generate, prog_code growth) and termination are NOT modelled - they are only "
-                  "observed under sanitizers and a timeout; the reusability half (probe program identical before/after) is "
-                  "exploration, not proof; the SAVEC bound is tied by a regenerated constant only (no trace point); "
-                  "trusted: Lean kernel, extract.py + the regexes of props/c02.py:gen_extra, the replay abstraction "
-                  "in NV/C02/Drive.lean (trace line -> event), the harness")
+    level_note = ("partial: refill_buffer's shift / include paths and the popping of linked buffers, bison's stacks, the parse "
+                  "trees, jump patching (upd_*) and switch tables of the code generator and termination are NOT modelled - "
+                  "they are only observed under sanitizers and a timeout; the macro / #define / terminator cursors are "
+                  "proved in the model and only their final values are observed on the real driver (no replay); the code "
+                  "emitter has no trace point (model + obligation on regenerated widths + boundary sweep); the reusability "
+                  "half (probe program identical before/after) is exploration, not proof; the SAVEC bound is tied by a "
+                  "regenerated constant only; trusted: Lean kernel, extract.py + the regexes of props/c02.py:gen_extra "
+                  "(a guard that is no longer located yields flag=false or a broken tie), the replay abstraction in "
+                  "NV/C02/Drive.lean (trace line -> event), the harness")
     rule = ("cases = corpus + known-finding inputs + boundary list + seeded sources from three generators: random bytes "
             "(raw and LPC alphabet), token-level mutation of valid LPC (examples/m3_mudlib + harness mudlib), grammar-level "
             "generator (nested function literals beyond MAX_FUNCTION_DEPTH, locals/arguments beyond MaxLocalVariables, "
@@ -117,10 +123,11 @@ class C02(Prop):
             "identifiers/lines around MAXLINE, many functions/strings to grow mem blocks); each case = probe, compile "
             "(sometimes two sources), probe; non-trivial = the fuzzed compile emitted at least 4 bookkeeping events; "
             "distinct = distinct canonical implementation trace")
-    not_covered = ["lexer buffer machine (refill_buffer/add_input linked buffers, DEFMAX/EXPANDMAX expansion buffers): sanitizer-observed only",
-                   "bison parser stacks (YYMAXDEPTH), parse trees, icode/generate code emission incl. prog_code growth: sanitizer-observed only",
-                   "termination of compilation: observed with a 20 s per-case timeout, not proved",
-                   "probe-program reusability check is exploration (one fixed probe + adaptive probe of at most 24 declared names), not proof",
+    not_covered = ["refill_buffer (head buffer shift, include resume, TERM_INCLUDE linked buffers) and the popping of linked buffers: sanitizer-observed only",
+                   "macro argument / body / #define text / terminator cursors: proved in the model over regenerated guards, on the real driver only the final cursor is observed",
+                   "bison parser stacks (YYMAXDEPTH), parse trees, upd_* jump patching and switch tables: sanitizer-observed only; the emitter's ins_* cursor is model + obligation + boundary sweep (no trace point)",
+                   "termination of compilation: observed with a 20 s per-case timeout, not proved (only #include MACRO hops are proved bounded)",
+                   "probe-program reusability check is exploration (one fixed probe + adaptive probe of at most 24 declared names), not proof; no single theorem 'state after cleanup = initial state' over all machines at once",
                    "MaxLocalVariables > 127 (num_local is saved in a `char` by the grammar) is not explored",
                    "errors raised by LPC code called during compilation (master log_error etc.) leave compile_file()'s static guard set; not explored",
                    "size_t / short overflow of counters (sem_value is a short) is not modelled"]
@@ -437,6 +444,13 @@ class C02(Prop):
             mk("add-input-linked-%d" % n, "#define A %s\n#define B A A A A A A\nint x; string s = \"B\"; int y = 0 B;\n" % ("+1" * (n // 2)))
         mk("add-input-recursive", "#define R R R\nint x = R;\n")
         mk("add-input-text-block-tail", "string f() { return @END\n%s\nEND + \"tail\"; }\n" % "\n".join("line %d" % i for i in range(700)))
+        # add_input's rest-of-line test at its edge: expansion of 9853 bytes + d more characters on the line
+        for d in range(130, 150):
+            mk("add-input-line-edge-%d" % d, "#define G(a) a a a a a a a a a a a a\nint x = G(" + "b" * 820 + ");" + " " * (d - 1) + "\nint y;\n")
+        # an item that makes the block grow, followed by enough code to reach the end of the grown block
+        for kind, expr in self.EMIT_KINDS[:6]:
+            for t in (25, 27, 29, 31):
+                B.append(self.emit_case("b-emit-%s-%d-then" % (kind, t), expr, 1012, t, "boundary", tail=1100))
         # extend round: every kind of emitted item across every alignment of the first code block boundary
         for kind, expr in self.EMIT_KINDS:
             for t in range(20, 48):
@@ -465,9 +479,11 @@ class C02(Prop):
             i += 1
         return "".join(out)
 
-    def emit_case(self, cid, stmt, p, t, origin, kind="emit"):
+    def emit_case(self, cid, stmt, p, t, origin, kind="emit", tail=0):
         """p four-byte statements, then t one-byte operators, then the item: sweeping t moves the item byte by byte"""
         text = self.emit_pad(p) + "void q() { int a, b; a = %sb; }\n" % ("~ " * t) + "mixed f(int x) { %s }\n" % stmt
+        if tail:
+            text += self.emit_pad(tail).replace("void p", "void tl")
         return E.Case(cid, ["probe"] + src_lines(text) + ["compile", "probe"], {"origin": origin, "kind": kind})
 
     @staticmethod
